@@ -3,5 +3,14 @@ import json, sys
 sys.path.insert(0, '/verif')
 from simkit.checks.common import sample_view
 d = json.load(open(sys.argv[1]))
-print(json.dumps(d.get('violation'), default=str))
-print(json.dumps(sample_view(d['scenario']), indent=1)[:int(sys.argv[2]) if len(sys.argv) > 2 else 6000])
+print(json.dumps(d.get('violation'), default=str)[:1500])
+v = sample_view(d['scenario'])
+print('cfg', json.dumps(v['cfg']), 'clients', json.dumps(v['clients']))
+for s in v['strategies']:
+    print('strategy', json.dumps(s))
+for k in ('inject', 'middlewares', 'dyadic'):
+    if d['scenario'].get(k): print(k, json.dumps(d['scenario'][k]))
+for m in v['markets']:
+    print(m['id'], m['type'], 'winners', m['winners'], 'bsp', m['bsp'], 'n_updates', m['n_updates'])
+    for t in m['timeline']:
+        print('  ', json.dumps(t))
